@@ -433,7 +433,10 @@ class DungeonModeConstants:
         self.close_constant = close_constant
         self.open_and_request_constant = open_and_request_constant
 
-    def get_explorerscript_constant_for(self, idx: int) -> str:
+    def get_explorerscript_constant_for(self, idx: int | SsbOpParamConstant) -> str:
+        if not isinstance(idx, int):
+            # Already a constant (eg. in ops that come directly from the compiler).
+            return str(idx)
         if idx == 1:
             return self.open_constant
         if idx == 2:
